@@ -435,6 +435,45 @@ example :
     (hotReload (exEnv [1, 0] [20]) 10 exHist.1 exHist.2).1.lookup ke = some ⟨.int 20, true, 1, true, 0⟩ ∧
     (hotReload (exEnv [1, 0] [20]) 10 exHist.1 exHist.2).1.lookup kb = some ⟨.int 21, true, 1, true, 1⟩ := by decide
 
+/-- **The failure branch is inhabited, and the asset recovers**: `e.s` is edited to something that
+does not parse (`[1, 2, 3]`), notified, `hot_reload`: `e` keeps `10`, `b` keeps `11`, everything is
+settled (`e` through the failure branch). Then `e.s` is repaired to `30` and notified. -/
+def exHistBroken : St × RSt :=
+  runH 10 [(exEnv [1, 0] [1, 2, 3], .hotReload), (exEnv [1, 0] [30], .notify [.file "e" "s"])] exHist
+
+/-- the pass over the broken file satisfies the hypotheses; `e` keeps its previous value -/
+example :
+    (Settled (exEnv [1, 0] [1, 2, 3]) 10 (hotReload (exEnv [1, 0] [1, 2, 3]) 10 exHist.1 exHist.2).1
+      (hotReload (exEnv [1, 0] [1, 2, 3]) 10 exHist.1 exHist.2).2.graph ∧
+     (hotReload (exEnv [1, 0] [1, 2, 3]) 10 exHist.1 exHist.2).2.dead = false) ∧
+    (hotReload (exEnv [1, 0] [1, 2, 3]) 10 exHist.1 exHist.2).1.lookup ke = some ⟨.int 10, true, 0, false, 0⟩ ∧
+    reloadOut (exEnv [1, 0] [1, 2, 3]) 10 (hotReload (exEnv [1, 0] [1, 2, 3]) 10 exHist.1 exHist.2).1 ke =
+      .err (.custom "parse") :=
+  ⟨C05_hot_reload_converges_partial (exEnv [1, 0] [10]) (exEnv [1, 0] [1, 2, 3]) 10 exHist.1 exHist.2 [.file "e" "s"]
+    (rank := exRank) (exEnv_steady _ _) (exEnv_steady _ _) (exEnv_same _ _ _ _)
+    (settled_of_check (by decide)) (C05_history_keeps_graphOK 10 _ _ graphOK_nil) (rank_of_entries (by decide))
+    (by decide) (by decide) (by decide) (by decide)
+    (exEnv_unchanged_e _ _ _) (fun _ _ => rfl) (by decide)
+    (noMiss_of_check (by decide)) (reloadsReturn_of_check (by decide)) (noRewire_of_check (by decide)),
+   by decide, by decide⟩
+
+/-- the next pass (file repaired) satisfies the hypotheses again — `hset` now holds through the
+failure branch for `e` — and the assets recover: `e = 30`, `b = 31` -/
+example :
+    (Settled (exEnv [1, 0] [30]) 10 (hotReload (exEnv [1, 0] [30]) 10 exHistBroken.1 exHistBroken.2).1
+      (hotReload (exEnv [1, 0] [30]) 10 exHistBroken.1 exHistBroken.2).2.graph ∧
+     (hotReload (exEnv [1, 0] [30]) 10 exHistBroken.1 exHistBroken.2).2.dead = false) ∧
+    (hotReload (exEnv [1, 0] [30]) 10 exHistBroken.1 exHistBroken.2).1.lookup ke = some ⟨.int 30, true, 1, true, 0⟩ ∧
+    (hotReload (exEnv [1, 0] [30]) 10 exHistBroken.1 exHistBroken.2).1.lookup kb = some ⟨.int 31, true, 2, true, 1⟩ :=
+  ⟨C05_hot_reload_converges_partial (exEnv [1, 0] [1, 2, 3]) (exEnv [1, 0] [30]) 10 exHistBroken.1 exHistBroken.2
+    [.file "e" "s"]
+    (rank := exRank) (exEnv_steady _ _) (exEnv_steady _ _) (exEnv_same _ _ _ _)
+    (settled_of_check (by decide)) (C05_history_keeps_graphOK 10 _ _ (C05_history_keeps_graphOK 10 _ _ graphOK_nil)) (rank_of_entries (by decide))
+    (by decide) (by decide) (by decide) (by decide)
+    (exEnv_unchanged_e _ _ _) (fun _ _ => rfl) (by decide)
+    (noMiss_of_check (by decide)) (reloadsReturn_of_check (by decide)) (noRewire_of_check (by decide)),
+   by decide, by decide⟩
+
 /-- `b = 1`, `e = 10`, both loaded; both files have been edited, the events arrived as `e.s`, `b.s`
 (the sort then yields `b` before `e`) -/
 def exFlat : RSt :=
